@@ -1358,11 +1358,11 @@ class Vector():
 		if isinstance(other, Vector):
 			if self._dtype is not None and other.schema() is not None and not self._dtype.nullable and not other.schema().nullable and self._dtype.kind != other.schema().kind:
 				raise SerifTypeError("Cannot concatenate two typesafe Vectors of different types")
-			return Vector(self._underlying + other._underlying,
+			return Vector(list(self._underlying) + list(other._underlying),
 				dtype=self._concat_dtype(other._underlying))
 		if isinstance(other, Iterable) and not isinstance(other, (str, bytes, bytearray)):
 			other = tuple(other)
-			return Vector(self._underlying + other,
+			return Vector(list(self._underlying) + list(other),
 				dtype=self._concat_dtype(other))
 		return Vector(self._underlying + (other,),
 				dtype=self._concat_dtype((other,)))
@@ -1405,7 +1405,7 @@ class Vector():
 		"""
 		# Convert other to Vector and concatenate with self
 		if isinstance(other, Iterable) and not isinstance(other, (str, bytes, bytearray)):
-			return Vector(tuple(other) + self._underlying,
+			return Vector(list(other) + list(self._underlying),
 				None,  # other doesn't have a default element
 				None,
 				False)
